@@ -78,6 +78,9 @@ def run(check: Check) -> None:
     from .c06 import x1_format_infix_semantics
 
     x1_format_infix_semantics(check)  # the formula's operators become tokens of their own whatever the operands are called
+    from .pyroundtrip_sem import constructor_fidelity
+
+    constructor_fidelity(check, bases=("Term",), only=("Function",))  # a function's own variables are its own: arguments stored as given, no container shared between terms
     check.exhaustive_parts += ["operator table vs specification ladder", "pop rule over all orderings", "arity x depth enumeration"]
 
 
